@@ -1,0 +1,75 @@
+//go:build verif
+
+package zygo
+
+import "sort"
+
+// Read-only accessors for the verification harness (build tag verif).
+
+// VerifDepths returns the sizes of the data, scope, address and loop stacks.
+func (env *Zlisp) VerifDepths() (data, scope, addr, loop int) {
+	return env.datastack.Size(), env.linearstack.Size(), env.addrstack.Size(), env.loopstack.Size()
+}
+
+// VerifPc returns the program counter and the name of the current function.
+func (env *Zlisp) VerifPc() (int, string) {
+	if env.curfunc == nil {
+		return env.pc, ""
+	}
+	return env.pc, env.curfunc.name
+}
+
+// VerifParser returns the interpreter's own parser.
+func (env *Zlisp) VerifParser() *Parser { return env.parser }
+
+// VerifSymtableSize returns the number of interned names.
+func (env *Zlisp) VerifSymtableSize() int { return len(env.symtable) }
+
+// VerifNextSymbol returns the interpreter's next-symbol counter.
+func (env *Zlisp) VerifNextSymbol() int { return env.nextsymbol }
+
+// VerifGlobalNames returns the sorted names bound in the global scope.
+func (env *Zlisp) VerifGlobalNames() []string {
+	var names []string
+	if env.linearstack.Size() == 0 {
+		return names
+	}
+	scope, ok := env.linearstack.elements[0].(*Scope)
+	if !ok {
+		return names
+	}
+	for num := range scope.Map {
+		names = append(names, env.revsymtable[num])
+	}
+	sort.Strings(names)
+	return names
+}
+
+// VerifBuiltinNames returns the sorted names of the registered builtins.
+func (env *Zlisp) VerifBuiltinNames() []string {
+	var names []string
+	for num := range env.builtins {
+		names = append(names, env.revsymtable[num])
+	}
+	sort.Strings(names)
+	return names
+}
+
+// VerifMacroNames returns the sorted names of the registered macros.
+func (env *Zlisp) VerifMacroNames() []string {
+	var names []string
+	for num := range env.macros {
+		names = append(names, env.revsymtable[num])
+	}
+	sort.Strings(names)
+	return names
+}
+
+// VerifInfixOps returns the infix operator table.
+func (env *Zlisp) VerifInfixOps() map[string]*InfixOp { return env.infixOps }
+
+// VerifMainFunc returns the main function (top-level bytecode).
+func (env *Zlisp) VerifMainFunc() *SexpFunction { return env.mainfunc }
+
+// VerifCode returns the instruction list of a compiled function.
+func (f *SexpFunction) VerifCode() []Instruction { return f.fun }
